@@ -377,5 +377,15 @@ pub fn run(outdir: &str) -> Vec<String> {
     writeln!(s, "end Gen").unwrap();
     std::fs::write(format!("{}/Amount.lean", outdir), s).unwrap();
     panic_inventory(outdir);
+    // ---- Sizes.lean: std::mem::size_of of the vector element types in THIS build of /repo
+    {
+        use monero::blockdata::transaction::{TxIn, TxOut};
+        use monero::consensus::encode::VarInt;
+        use monero::util::ringct::{Bulletproof, BulletproofPlus, Key, RangeSig};
+        use std::mem::size_of;
+        let s = format!("import MoneroModel.Types\n{}namespace Gen\ndef sizes : Sizes := ⟨{}, {}, {}, {}, {}, {}, {}, {}⟩\nend Gen\n", hdr.replace("from /repo's current source", "(std::mem::size_of in the current build of /repo)"),
+            size_of::<TxIn>(), size_of::<TxOut>(), size_of::<VarInt>(), size_of::<Key>(), size_of::<Bulletproof>(), size_of::<BulletproofPlus>(), size_of::<u8>(), size_of::<RangeSig>());
+        std::fs::write(format!("{}/Sizes.lean", outdir), s).unwrap();
+    }
     ex.fails
 }
